@@ -736,6 +736,8 @@ class CompilerPassGenerateCode(CompilerPass):
         data.result = res
 
     def handle_compare(self, node: nodes.Compare):
+        if len(node.ops) > 1:
+            raise CompilerError("Chained comparisons are not supported", node)
         if (
             isinstance(node.parent, (nodes.If, nodes.While))
             and node == node.parent.test
@@ -978,6 +980,8 @@ class CompilerPassGenerateCode(CompilerPass):
 
         data.add(IC10(f"{while_label}:"))
         if isinstance(test, nodes.Compare):
+            if len(test.ops) > 1:
+                raise CompilerError("Chained comparisons are not supported", test)
             left = self.compile_node(test.left)
             cmp_op, right_node = test.ops[0]
             right = self.compile_node(right_node)
